@@ -143,7 +143,7 @@ AffChangeOK(call, oldb, newaff, created, bk) ==
     CASE oldb.aff = newaff -> TRUE
       [] oldb.aff = "" -> /\ created                                            \* only a create gives a block an owner
                           /\ call.op \in {"assign", "claim"} /\ newaff = HostAff(call.host)
-                          /\ \E k \in AffKeys : st[k].val.owner = newaff /\ st[k].val.bk = bk   \* claim exists first
+                          \* (that the owner's claim exists at this instant is part of BlockAffHasAff: soft channel)
       [] newaff = "" -> MayUnaffine(call, oldb)
       [] OTHER -> FALSE
 
@@ -234,9 +234,17 @@ KvApply(e) ==
                     LET x == calls[c] IN
                     IF c = e.c
                       THEN [x EXCEPT !.wrote = @ \cup took, !.freed = @ \cup gave, !.tried = @ \cup claim,
+                                     !.faulted = @ \/ e.inj # "",
                                      !.seenUn = @ \cup (IF wr /\ x.op = "release" THEN { x.opts[i].ip : i \in DOMAIN x.opts } \ allocNow ELSE {})]
                       ELSE [x EXCEPT !.excl = @ /\ ~wr,
                                      !.seenUn = @ \cup (IF wr /\ x.op = "release" THEN { x.opts[i].ip : i \in DOMAIN x.opts } \ allocNow ELSE {})]]
+    \* C22 BlockAffHasAff on the soft channel: a block whose recorded owner holds no claim appears with this write
+    /\ LET orphans(s) == { b \in { k \in DOMAIN s : s[k].val.kind = "block" } :
+                              /\ s[b].val.aff # ""
+                              /\ ~\E k \in DOMAIN s : s[k].val.kind = "aff" /\ s[k].val.bk = b /\ s[k].val.owner = s[b].val.aff }
+           fresh == orphans(st2) \ orphans(st)
+       IN IF fresh = {} THEN TRUE
+          ELSE PrintT(<<"SOFT", "orphan-block", e.t, { <<st2[b].val.aff, b, e.n, 0>> : b \in fresh }>>)
     /\ IF CapExceededLiterally(e) THEN PrintT(<<"SOFT", "block-cap", e.t, {<<e.val.owner, e.key, ConfirmedOf(e.val.owner, e), env.cfg.maxb>>}>>) ELSE TRUE
     /\ now' = e.now
     /\ taint' = (taint \/ e.inj = "error")
@@ -247,8 +255,8 @@ CallOK(e) == e.c \notin DOMAIN calls
 CallApply(e) ==
     LET allocNow == AllocAddrs(st)
         un == IF e.op = "release" THEN { e.opts[i].ip : i \in DOMAIN e.opts } \ allocNow ELSE {}
-        rec == [ x \in DOMAIN e \cup {"wrote", "freed", "tried", "seenUn", "excl", "unAtStart"} |->
-                 CASE x = "wrote" -> {} [] x = "freed" -> {} [] x = "tried" -> {} [] x = "seenUn" -> un
+        rec == [ x \in DOMAIN e \cup {"wrote", "freed", "tried", "faulted", "seenUn", "excl", "unAtStart"} |->
+                 CASE x = "wrote" -> {} [] x = "freed" -> {} [] x = "tried" -> {} [] x = "faulted" -> FALSE [] x = "seenUn" -> un
                    [] x = "excl" -> DOMAIN calls = {} [] x = "unAtStart" -> un [] OTHER -> e[x] ]
     IN /\ calls' = Put([c \in DOMAIN calls |-> [calls[c] EXCEPT !.excl = FALSE]], e.c, rec)
        /\ reads' = Put(reads, e.c, {})
@@ -288,7 +296,8 @@ RetOK(e) ==
                      /\ call.freed = {} /\ call.wrote = {}
                      \* (a request carrying a sequence number may answer "bad sequence number": the stamp of a
                      \*  released address is no longer the captured one - reported, still harmless)
-                     /\ (\A i \in DOMAIN call.opts : call.opts[i].cap = 0) => e.err = ""
+                     \* (and a call that was hit by an injected datastore fault may of course fail)
+                     /\ (~call.faulted /\ \A i \in DOMAIN call.opts : call.opts[i].cap = 0) => e.err = ""
          [] e.op = "relh" ->
                \* C21: an undisturbed successful release-by-handle leaves the handle no address
                (call.excl /\ e.err = "") => \A k \in BlockKeys : OwnedBy(st[k].val, call.h) = {}
